@@ -187,7 +187,7 @@ func removeKeepsLatest(c *Ctx, rule string) {
 // optionsKept (C07): what the Option functions configured - the ACL among it - is what the server runs with.
 func optionsKept(c *Ctx, rule string) {
 	P := c.P
-	c.Rule(rule, "subscribe.NewServer: the options value the Option functions are applied to is the value stored into Server.o, and on no path is that variable overwritten as a whole, or its acl field written, after an Option has been applied (a later reset to defaults silently drops WithACL); outside NewServer the acl field of options is written only by the function WithACL returns")
+	c.Rule(rule, "subscribe.NewServer: the options object the Option functions are applied to is the one the server keeps - it is Server.o itself (options applied in place) or the variable Server.o is stored from - and on no path is an options object overwritten as a whole, or an acl field written, after an Option has been applied (a later reset to defaults silently drops WithACL); outside NewServer and its helpers the acl field of options is written only by the function WithACL returns")
 	ns := P.Func("subscribe", "NewServer")
 	fACL := P.Field("subscribe", "options", "acl")
 	fO := P.Field("subscribe", "Server", "o")
@@ -198,31 +198,59 @@ func optionsKept(c *Ctx, rule string) {
 	}
 	optT := fO.Type()
 	c.Analysed(fnName(ns))
-	isOptsCell := func(v ssa.Value) bool {
-		al, ok := v.(*ssa.Alloc)
-		return ok && types.Identical(deref(al.Type()), optT)
+	isOptsAddr := func(v ssa.Value) bool {
+		pt, ok := v.Type().Underlying().(*types.Pointer)
+		return ok && types.Identical(pt.Elem(), optT)
 	}
-	e := &PPA{MaxVisits: 3, NoAuto: true,
+	applyArg := func(ev *Ev) (RV, bool) {
+		if !hasPrefix(ev.Label, "call:dyn") {
+			return RV{}, false
+		}
+		for _, a := range ev.Args {
+			if a.V != nil && isOptsAddr(a.V) {
+				return a, true
+			}
+		}
+		return RV{}, false
+	}
+	isApplyEv := func(ev *Ev) bool { _, ok := applyArg(ev); return ok }
+	e := &PPA{MaxVisits: 3,
+		// helpers that apply the options (and constructors of the options value) are entered
+		Inline: func(fr *Frame, call ssa.CallInstruction, callee *ssa.Function) bool {
+			if pkgPathOf(callee) != pkgPathOf(ns) || len(callee.Blocks) == 0 || callee.Parent() != nil || isExportedFn(callee) {
+				return false
+			}
+			for x := fr; x != nil; x = x.Parent {
+				if x.Fn == callee {
+					return false
+				}
+			}
+			return true
+		},
 		Probe: func(e *PPA, st *State, fr *Frame, in ssa.Instruction) {
 			s, ok := in.(*ssa.Store)
 			if !ok {
 				return
 			}
-			a := e.resolveAddr(st, RV{fr, s.Addr}).V
+			a := e.resolveAddr(st, RV{fr, s.Addr})
 			switch {
-			case isOptsCell(a):
-				e.emit(st, Ev{Label: "fact", In: in, F: fr, Note: "overwrite"})
-			case fieldOf(a) == fACL:
+			case fieldOf(a.V) == fACL:
 				e.emit(st, Ev{Label: "fact", In: in, F: fr, Note: "acl-write"})
-			case fieldOf(a) == fO:
-				note := "server-o:other"
-				if u, ok := e.Resolve(st, RV{fr, s.Val}).V.(*ssa.UnOp); ok && u.Op == token.MUL && isOptsCell(u.X) {
-					note = "server-o:cell"
+			case a.V != nil && isOptsAddr(a.V):
+				// a whole options value stored: into Server.o (from which object?) or over a variable
+				val := e.Resolve(st, RV{fr, s.Val})
+				var src RV
+				if u, ok := val.V.(*ssa.UnOp); ok && u.Op == token.MUL {
+					src = e.resolveAddr(st, RV{val.F, u.X})
 				}
-				e.emit(st, Ev{Label: "fact", In: in, F: fr, Note: note})
+				note := "overwrite"
+				if fieldOf(a.V) == fO {
+					note = "server-o"
+				}
+				e.emit(st, Ev{Label: "fact", In: in, F: fr, Note: note, Args: []RV{a, src}})
 			}
 		},
-		Watch: func(ev *Ev) bool { return ev.Label == "fact" || isApply(ev) }}
+		Watch: func(ev *Ev) bool { return ev.Label == "fact" || isApplyEv(ev) }}
 	e.Run(ns)
 	c.Paths += len(e.Paths)
 	if e.Overflow {
@@ -230,38 +258,57 @@ func optionsKept(c *Ctx, rule string) {
 	}
 	applied, kept := 0, 0
 	bad := map[token.Pos]bool{}
+	fail := func(pos token.Pos, why string) {
+		if !bad[pos] {
+			bad[pos] = true
+			c.Check(false, rule, fnName(ns), "configured options survive", P.Pos(pos), why)
+		}
+	}
 	for i := range e.Paths {
 		p := &e.Paths[i]
 		if p.End != "return" {
 			continue
 		}
-		first := p.Index(0, isApply)
+		first := p.Index(0, isApplyEv)
+		if first < 0 {
+			continue
+		}
+		applied++
+		target, _ := applyArg(&p.Trace[first])
+		ok := fieldOf(target.V) == fO // applied in place on the server's own options
 		for j := range p.Trace {
 			ev := &p.Trace[j]
+			if a, isA := applyArg(ev); isA && a.V != target.V {
+				fail(posOf(ev.In), "Options are applied to more than one options object")
+			}
 			if ev.Label != "fact" {
 				continue
 			}
 			switch ev.Note {
 			case "overwrite", "acl-write":
-				if first >= 0 && j > first && !bad[posOf(ev.In)] {
-					bad[posOf(ev.In)] = true
-					c.Check(false, rule, fnName(ns), "configured options survive", P.Pos(posOf(ev.In)), "the options variable is written ("+ev.Note+") after an Option was applied")
+				if j > first {
+					fail(posOf(ev.In), "an options object is written ("+ev.Note+") after an Option was applied")
 				}
-			case "server-o:cell":
-				kept++
-			case "server-o:other":
-				if !bad[posOf(ev.In)] {
-					bad[posOf(ev.In)] = true
-					c.Check(false, rule, fnName(ns), "configured options survive", P.Pos(posOf(ev.In)), "Server.o is not stored from the options variable the Options were applied to")
+			case "server-o":
+				if j > first && len(ev.Args) == 2 && ev.Args[1].V == target.V {
+					ok = true
+				} else if j > first {
+					fail(posOf(ev.In), "Server.o is stored from something other than the options object the Options were applied to")
 				}
 			}
 		}
-		if first >= 0 {
-			applied++
+		if ok {
+			kept++
+		} else {
+			fail(ns.Pos(), "the options object the Options were applied to does not become Server.o")
 		}
 	}
-	c.Check(applied > 0 && kept > 0, rule, fnName(ns), "configured options survive (paths applying an Option analysed)", P.Pos(ns.Pos()), fmt.Sprintf("%d paths apply an Option, %d stores of the variable into Server.o", applied, kept))
+	c.Check(applied > 0 && kept == applied, rule, fnName(ns), "configured options survive (paths applying an Option analysed)", P.Pos(ns.Pos()), fmt.Sprintf("%d paths apply an Option, on %d of them the object becomes Server.o", applied, kept))
 	// writers of options.acl
+	unit := map[*ssa.Function]bool{}
+	for _, g := range staticClosure(ns) {
+		unit[g] = true
+	}
 	nw := 0
 	for _, f := range P.PkgFuncs("subscribe") {
 		if P.InTestFile(f) {
@@ -271,7 +318,7 @@ func optionsKept(c *Ctx, rule string) {
 			instrs(g, func(in ssa.Instruction) {
 				if st, ok := in.(*ssa.Store); ok && fieldOf(st.Addr) == fACL {
 					nw++
-					okW := g.Parent() == wa || g == wa
+					okW := g.Parent() == wa || g == wa || unit[g]
 					c.Check(okW, rule, fnName(g), "options.acl written only by WithACL", P.Pos(st.Pos()), "")
 				}
 			})
@@ -504,6 +551,54 @@ func ctxFlow(c *Ctx, rule string) {
 		return ok && nt.Obj().Pkg() != nil && nt.Obj().Pkg().Path() == "context" && nt.Obj().Name() == "Context"
 	}
 	var derived func(v ssa.Value, params map[ssa.Value]bool, d int) (bool, string)
+	// captured: what the enclosing function bound to the free variable (a cell of its own, holding its context
+	// parameter or a derivation of it)
+	captured := func(fv *ssa.FreeVar, d int) (bool, string) {
+		fn := fv.Parent()
+		par := fn.Parent()
+		if par == nil {
+			return false, "free variable " + fv.Name()
+		}
+		idx := -1
+		for i, x := range fn.FreeVars {
+			if x == fv {
+				idx = i
+			}
+		}
+		pparams := map[ssa.Value]bool{}
+		for _, pp := range par.Params {
+			if isCtx(pp.Type()) {
+				pparams[pp] = true
+			}
+		}
+		found := false
+		okAll, why := true, ""
+		instrs(par, func(in ssa.Instruction) {
+			mc, ok := in.(*ssa.MakeClosure)
+			if !ok || mc.Fn != ssa.Value(fn) || idx < 0 || idx >= len(mc.Bindings) {
+				return
+			}
+			found = true
+			b := mc.Bindings[idx]
+			if al, ok := b.(*ssa.Alloc); ok {
+				for _, r := range *al.Referrers() {
+					if st, ok := r.(*ssa.Store); ok && st.Addr == ssa.Value(al) {
+						if ok2, w := derived(st.Val, pparams, d+1); !ok2 {
+							okAll, why = false, w
+						}
+					}
+				}
+				return
+			}
+			if ok2, w := derived(b, pparams, d+1); !ok2 {
+				okAll, why = false, w
+			}
+		})
+		if !found {
+			return false, "free variable " + fv.Name() + " (binding not found)"
+		}
+		return okAll, why
+	}
 	derived = func(v ssa.Value, params map[ssa.Value]bool, d int) (bool, string) {
 		if d > 8 {
 			return false, "too deep"
@@ -543,6 +638,10 @@ func ctxFlow(c *Ctx, rule string) {
 						}
 					}
 					return true, ""
+				}
+				// a context variable of the enclosing function captured by reference: judged there by its stores
+				if fv, ok := x.X.(*ssa.FreeVar); ok {
+					return captured(fv, d+1)
 				}
 			}
 		case *ssa.FreeVar:
